@@ -20,7 +20,9 @@ var ds = []int64{0, 0, 3, 5, 50, 80}
 
 func genOp(n int) *rapid.Generator[Op] {
 	return rapid.Custom(func(t *rapid.T) Op {
-		switch rapid.SampledFrom([]string{"avail", "avail", "avail", "set", "set", "adv", "adv", "fire", "fire", "quiesce"}).Draw(t, "k") {
+		switch rapid.SampledFrom([]string{"avail", "avail", "avail", "set", "set", "adv", "adv", "fire", "fire", "quiesce", "advfire", "advfire"}).Draw(t, "k") {
+		case "advfire":
+			return Op{K: "advfire", Pi: rapid.SliceOfN(rapid.IntRange(0, 3), 0, 3).Draw(t, "pi")}
 		case "avail":
 			return Op{K: "avail", E: rapid.IntRange(0, 5).Draw(t, "e"), B: rapid.Bool().Draw(t, "b")}
 		case "set":
@@ -55,6 +57,20 @@ func genCase(t *rapid.T) *Case {
 		Init: append([]int{}, rapid.Permutation([]int{0, 1, 2, 3, 4}).Draw(t, "init")[:n]...),
 	}
 	c.Ops = rapid.SliceOfN(genOp(n), 1, 40).Draw(t, "ops")
+	if rapid.IntRange(0, 2).Draw(t, "readd") == 0 {
+		// steer: an endpoint is removed and re-added (a new incarnation) while timers of the old one are pending
+		perm := rapid.Permutation([]int{0, 1, 2, 3, 4}).Draw(t, "rperm")
+		e := perm[0]
+		l1 := append([]int{}, perm[1:1+rapid.IntRange(1, 3).Draw(t, "l1")]...)
+		l2 := append([]int{e}, perm[1:1+rapid.IntRange(0, 3).Draw(t, "l2")]...)
+		if rapid.Bool().Draw(t, "l2tail") {
+			l2 = append(append([]int{}, perm[1:1+rapid.IntRange(0, 2).Draw(t, "l2head")]...), e)
+		}
+		steer := []Op{{K: "set", L: l1}, {K: "adv", D: int64(rapid.IntRange(1, 4).Draw(t, "rd"))}, {K: "set", L: l2},
+			{K: "avail", E: perm[rapid.IntRange(0, 4).Draw(t, "rav")], B: true}, {K: "advfire"}, {K: "advfire"}}
+		at := rapid.IntRange(0, len(c.Ops)).Draw(t, "rat")
+		c.Ops = append(append(append([]Op{}, c.Ops[:at]...), steer...), c.Ops[at:]...)
+	}
 	// every history ends with quiescence so that convergence is always examined
 	c.Ops = append(c.Ops, Op{K: "quiesce"})
 	return c
@@ -137,6 +153,7 @@ func exhaustive(prop string, depth, shard, shards int, record func(*Case, Result
 		Op{K: "fire", Pi: []int{0, 0, 0}},    // fire in creation order
 		Op{K: "fire", Pi: []int{1, 1, 1, 1}}, // fire in another order
 		Op{K: "quiesce"},
+		Op{K: "advfire"}, // to the next due instant and fire
 	)
 	type cfg struct {
 		R, D int64
